@@ -13,6 +13,15 @@ Emit ==
                                  q |-> [t |-> q.t, K |-> Asc(q.K), root |-> q.root, pres |-> Asc(q.pres)],
                                  raw |-> IF Fam = "raw" THEN GraphSeq(G) ELSE <<>>])>>)
 
+NoPrefix == <<>>
+(* two registry points with one parser each: what rules are written over *)
+PtDecl(k)  == [kind |-> "point", typ |-> "base", grp |-> 1, prio |-> 1, decl |-> PointDecl]
+Parser(d)  == [kind |-> "comp", typ |-> "base", grp |-> 1, prio |-> 1, decl |-> <<Item("req", <<d>>)>>]
+ParserPrefix == <<PtDecl(1), PtDecl(2), Parser(1), Parser(2)>>
+(* ... and a condition that requires the first parser and at least the second *)
+CondPrefix == ParserPrefix \o <<[kind |-> "comp", typ |-> "base", grp |-> 1, prio |-> 1,
+                                  decl |-> <<Item("req", <<3>>), Item("grp", <<4>>)>>]>>
+
 Pick(S) == {RandomElement(S)}          \* a singleton: the choice is made once, then bound
 
 (* a random declaration: every earlier component is named with probability  *)
